@@ -301,7 +301,7 @@ def gen_abf(r, k, T):
         M["other"][0] = True
         M["hk"], M["hc"] = hk, hc
     return {"fam": "abf", "tags": tags, "sigtags": [], "natoms": nv, "setup": ["samestep %d" % (1 if same else 0), "includecv 1"],
-            "config": cfg + B, "it0": r.choice([0, 0, 4]),
+            "config": cfg + B, "it0": r.choice([0, 0, 4]), "show_tf": True, "tf_lagged": not same,
             "pos": walk(r, T, nv, lo=-3.5, hi=3.5, bits=3), "ef": forces(r, T, nv), "model": M}
 
 
@@ -312,17 +312,24 @@ def gen_meta(r, k, T):
     tags = ["meta", "grids" if use_grids else "nogrids"]
     cfg = []
     nice = r.random() < 0.7
+    hw = r.choice([1.0, 2.0, 2.5])
+    M = {"vars": [], "W": r.choice([0.125, 0.5, 1.0]), "hw": hw, "use_grids": use_grids, "keep": False, "wt": False,
+         "bt": 300.0}
     for i in range(nv):
         w = r.choice([0.5, 1.0])
         nx = r.randint(6, 12)
         lo = V.dyadic(r, -4, -1, bits=2) if nice else r.choice([-3.123456789, -2.0 / 3.0 - 2])
-        cfg += cv_block(i, width=w, lower=lo, upper=lo + nx * w)
+        expand = use_grids and nice and r.random() < 0.25
+        cfg += cv_block(i, width=w, lower=lo, upper=lo + nx * w, extra=["expandBoundaries on"] if expand else [])
+        M["vars"].append({"w": w, "lower": lo, "upper": lo + nx * w, "nx": nx, "sigma": w * hw / 2.0, "expand": expand})
+        if expand and "expandBoundaries" not in tags:
+            tags.append("expandBoundaries")
     if not nice:
         tags.append("long-decimal-boundaries")
     freq = r.choice([1, 2, 3])
+    M["freq"] = M["gfreq"] = freq
     B = ["metadynamics {", "  name m", "  colvars " + " ".join("v%d" % i for i in range(nv)),
-         "  hillWeight %r" % r.choice([0.125, 0.5, 1.0]), "  newHillFrequency %d" % freq,
-         "  hillWidth %r" % r.choice([1.0, 2.0, 2.5])]
+         "  hillWeight %r" % M["W"], "  newHillFrequency %d" % freq, "  hillWidth %r" % hw]
     pending = False
     if not use_grids:
         B.append("  useGrids off")
@@ -331,15 +338,19 @@ def gen_meta(r, k, T):
             g = r.choice([1, 2, 4, 6])
             B.append("  gridsUpdateFrequency %d" % g)
             tags.append("gfreq=%s" % ("freq" if g == freq else "other"))
+            M["gfreq"] = g
             # hills deposited on a step that is not a multiple of gridsUpdateFrequency wait, unprojected, for the
             # next such step: writing the state projects them at once
             pending = (freq % g) != 0
     if use_grids and r.random() < 0.4:      # keepHills is only parsed with grids
         B.append("  keepHills on")
         tags.append("keepHills")
+        M["keep"] = True
     if r.random() < 0.3:
-        B += ["  wellTempered on", "  biasTemperature %r" % r.choice([300.0, 1000.0])]
+        bt = r.choice([300.0, 1000.0])
+        B += ["  wellTempered on", "  biasTemperature %r" % bt]
         tags.append("wt")
+        M["wt"], M["bt"] = True, bt
     B.append("}")
     p_out = r.choice([0.0, 0.0, 0.2])
     if p_out:
@@ -349,9 +360,11 @@ def gen_meta(r, k, T):
         for t in range(T):
             if r.random() < p_out:
                 pos[t] = [z - 6.0 for z in pos[t]]
-    return {"fam": "meta", "tags": tags, "sigtags": ["pending-hills"] if pending else [],
-            "collapse": "obs" if pending else None, "natoms": nv, "setup": ["temperature 300.0"], "config": cfg + B,
-            "it0": r.choice([0, 0, 5]), "pos": pos}
+    expanding = "expandBoundaries" in tags
+    st = (["pending-hills"] if pending else []) + (["expandBoundaries"] if expanding else [])
+    return {"fam": "meta", "tags": tags, "sigtags": st,
+            "collapse": "obs" if (pending or expanding) else None, "natoms": nv, "setup": ["temperature 300.0"], "config": cfg + B,
+            "it0": r.choice([0, 0, 5]), "pos": pos, "model": M}
 
 
 # ------------------------------------------------------------------------------------------------ OPES
@@ -373,9 +386,55 @@ def gen_opes(r, k, T):
         B.append("  calcWork on")
         tags.append("calcWork")
     B.append("}")
-    return {"fam": "opes", "tags": tags, "sigtags": [], "collapse": "all", "natoms": nv, "setup": ["temperature 300.0", "restartfreq %d" % rf],
+    return {"fam": "opes", "tags": tags, "sigtags": [], "collapse": None, "natoms": nv, "setup": ["temperature 300.0", "restartfreq %d" % rf],
             "config": cfg + B, "it0": 0, "pos": walk(r, T, nv, lo=-3.0, hi=3.0, bits=3), "restartfreq": rf,
             "needs_prefix": True}
 
 
-FAMILIES = {"opes": gen_opes, "restraint": gen_restraint, "histogram": gen_histogram, "extlag": gen_extlag, "abmd": gen_abmd, "alb": gen_alb, "abf": gen_abf, "meta": gen_meta}
+# ------------------------------------------------------------------------------------------------ histogramRestraint
+def gen_histrestraint(r, k, T):
+    na = 4
+    cfg = ["colvar {", "  name v0", "  distancePairs {", "    group1 { atomNumbers 1 2 }", "    group2 { atomNumbers 3 4 }",
+           "  }", "}"]
+    ref = [r.choice([0.0, 0.125, 0.25, 0.5]) for _ in range(8)]
+    B = ["histogramRestraint {", "  name hr", "  colvars v0", "  lowerBoundary 0.0", "  upperBoundary 8.0", "  width 1.0",
+         "  gaussianSigma %r" % r.choice([0.5, 1.0]), "  refHistogram " + vec(ref), "  forceConstant %r" % r.choice([1.0, 2.0]),
+         "  outputEnergy on", "}"]
+    pos = walk(r, T, na, lo=-4.0, hi=4.0, bits=3)
+    return {"fam": "histrestraint", "tags": ["histogramRestraint"], "sigtags": [], "natoms": na, "config": cfg + B, "it0": 0,
+            "pos": pos, "cvnames": []}
+
+
+# ------------------------------------------------------------------------------------------------ eABF (ABF on an extended variable, CZAR)
+def gen_eabf(r, k, T):
+    w = r.choice([0.5, 1.0])
+    nx = r.randint(3, 6)
+    lo = V.dyadic(r, -2, 0, bits=2)
+    ex = ["extendedLagrangian on", "extendedFluctuation %r" % r.choice([0.5, 0.25]),
+          "extendedTimeConstant %r" % r.choice([50.0, 100.0])]
+    setup = ["dt 1.0", "temperature 300.0", "samestep 0", "includecv 1"]
+    tags = ["eabf"]
+    if r.random() < 0.4:
+        ex += ["extendedLangevinDamping %r" % r.choice([1.0, 10.0])]
+        setup.append("gauss %r" % r.choice([0.5, -1.25]))
+        tags.append("langevin")
+    else:
+        ex += ["extendedLangevinDamping 0.0"]
+    cfg = cv_block(0, width=w, lower=lo, upper=lo + nx * w, extra=ex)
+    full = r.randint(1, 4)
+    B = ["abf {", "  name a", "  colvars v0", "  fullSamples %d" % full, "}"]
+    start = [lo + nx * w / 2]
+    pos = walk(r, T, 1, lo=lo, hi=lo + nx * w, bits=5, stay=0.1, start=start)
+    return {"fam": "eabf", "tags": tags, "sigtags": [], "natoms": 1, "setup": setup, "config": cfg + B, "it0": r.choice([0, 0, 3]),
+            "pos": pos, "ef": forces(r, T, 1), "show_tf": True, "tf_lagged": True}
+
+
+# ------------------------------------------------------------------------------------------------ analysis windows
+def gen_runave(r, k, T):
+    L = r.choice([2, 3, 4])
+    cfg = cv_block(0, width=1.0, extra=["runAve on", "runAveLength %d" % L])
+    return {"fam": "runave", "tags": ["runAve", "length=%d" % L], "sigtags": [], "collapse": "all", "natoms": 1, "config": cfg,
+            "it0": 0, "pos": walk(r, T, 1, lo=-4, hi=4, bits=3), "prefix_per_run": True}
+
+
+FAMILIES = {"runave": gen_runave, "histrestraint": gen_histrestraint, "eabf": gen_eabf, "opes": gen_opes, "restraint": gen_restraint, "histogram": gen_histogram, "extlag": gen_extlag, "abmd": gen_abmd, "alb": gen_alb, "abf": gen_abf, "meta": gen_meta}
